@@ -4,8 +4,10 @@
    and its `ast.parse` (reified), plus the ground truth about the live functions (generator's knowledge and
    inspect.signature).
    verdict: 0 ok; 1 model <> implementation, property predicate holds; 2 property predicate false on the
-   implementation's own output; 3 malformed case.  verdict_kf adds 10 when the case lies in the class
-   kf_nested_class (some traced function has two or more class components in its qualname). *)
+   implementation's own output; 3 malformed case.  verdict_kf adds 10 when the case is excused by the
+   finding kf_nested_class (kf_excused: some traced function has two or more class components in its qualname, the text
+   does not parse, and everything still judgeable — the FunctionDefinitions, one def line per traced function under
+   its own dotted class header, nothing else — is right). *)
 From Coq Require Import List Bool Arith String Ascii.
 From MT Require Export StubRender Common.
 Import ListNotations.
